@@ -845,7 +845,10 @@ impl Runner {
                 }
             }
         }
-        let out_of_zone = exp.zone.is_some() || exp.beyond96;
+        // numeric reasons only: the statements' silence on other matters (an explicit zero fee, a
+        // fee above the proceeds, a legal configuration change) does not disturb later arithmetic
+        let numeric = |z: &str| ["not representable", "2^96", "exceeds u128", "too wide", "held fee below", "exceeds the unspent", "outside the grammar", "not an integer"].iter().any(|k| z.contains(k));
+        let out_of_zone = exp.beyond96 || exp.zone.as_deref().map(numeric).unwrap_or(false);
         for id in &ask_ids {
             let e = t.asks.entry(id.clone()).or_default();
             if moved {
